@@ -760,3 +760,117 @@ Proof.
       destruct n as [|[|[|[|n]]]]; try lia; cbn [firstn In app] in Hin |- *; tauto.
     + rewrite Hok. unfold conversation. cbn. lia.
 Qed.
+
+(* ================================================================ the theorems about connect_to_bus *)
+Lemma avail_init scr : avail (sock_init scr) = total_pieces scr.
+Proof. unfold avail, sock_init, total_pieces, fpieces. cbn [rq future]. now rewrite app_length. Qed.
+
+Lemma reply_length word evs a : reply word evs a ->
+  (length evs <= length (reads evs) + 1)%nat /\ (a = AOk -> length evs = length (reads evs)).
+Proof.
+  intros H. inversion H; subst; rewrite ?reads_app, ?reads_map_R, ?app_length, ?map_length; cbn [reads length];
+    (split; [lia|try discriminate; auto]).
+Qed.
+Lemma conforming_length hex with_fd evs res :
+  conforming hex with_fd evs res -> (length evs <= length (reads evs) + 4)%nat.
+Proof.
+  intros H. inversion H; subst; clear H; cbn [length reads];
+    repeat match goal with Hr : reply _ _ _ |- _ => apply reply_length in Hr; destruct Hr as [? ?] end;
+    repeat match goal with Hr : AOk = AOk -> _ |- _ => specialize (Hr eq_refl) end;
+    rewrite ?reads_app, ?app_length; cbn [length reads]; rewrite ?reads_app, ?app_length; cbn [length reads]; lia.
+Qed.
+
+(* A: every run conforms to the protocol; the AUTH argument is the hex of the decimal uid *)
+Theorem auth_conforms uid with_fd scr :
+  uid < 2 ^ 32 ->
+  exists ds, decimal_of uid ds
+    /\ match connect_to_bus uid with_fd scr with
+       | (res, s) => conforming (hex_of_digits ds) with_fd (log s) res
+       end.
+Proof.
+  intros Hu. destruct (get_uid_as_hex_spec uid Hu) as (ds & Eh & Hd). exists ds. split; [exact Hd|].
+  unfold connect_to_bus.
+  pose proof (connect_on_conforms (fuel_for scr) uid (hex_of_digits ds) with_fd (sock_init scr) Eh) as H.
+  rewrite avail_init in H. specialize (H ltac:(unfold fuel_for; lia)).
+  destruct (connect_on (fuel_for scr) uid with_fd (sock_init scr)) as [res s].
+  destruct H as (evs & [El _] & Hc & _). cbn [sock_init log app] in El. now rewrite El.
+Qed.
+
+(* B: termination: a result after at most (pieces of the script + 4) system calls, never a panic; the
+   client can only be left waiting by a peer that neither completes a line nor closes *)
+Theorem auth_terminates uid with_fd scr :
+  uid < 2 ^ 32 ->
+  match connect_to_bus uid with_fd scr with
+  | (res, s) => res <> CPanic /\ res <> CFuel
+                /\ (length (log s) <= total_pieces scr + 4)%nat
+                /\ (res = CBlocked -> stalls with_fd (replies scr))
+  end.
+Proof.
+  intros Hu. destruct (get_uid_as_hex_spec uid Hu) as (ds & Eh & Hd).
+  unfold connect_to_bus.
+  pose proof (connect_on_conforms (fuel_for scr) uid (hex_of_digits ds) with_fd (sock_init scr) Eh) as H.
+  rewrite avail_init in H. specialize (H ltac:(unfold fuel_for; lia)).
+  destruct (connect_on (fuel_for scr) uid with_fd (sock_init scr)) as [res s].
+  destruct H as (evs & [El Hp] & Hc & Hb). cbn [sock_init log app] in El. rewrite El.
+  destruct (conforming_total _ _ _ _ Hc) as [H1 H2]. split; [exact H1|]. split; [exact H2|]. split; [|exact Hb].
+  pose proof (conforming_length _ _ _ _ Hc) as Hl.
+  assert (Hr : (length (reads evs) <= total_pieces scr)%nat).
+  { rewrite <- avail_init. unfold avail. rewrite <- Hp, app_length. lia. }
+  lia.
+Qed.
+
+(* a script answers when each reply that is reached completes a line or closes the socket *)
+Definition answers (st : step) : Prop := closes st = true \/ has_crlf (concat (chunks st)).
+Definition responsive (with_fd : bool) (scr : script) : Prop :=
+  match replies scr with
+  | [] => False
+  | st0 :: rest => answers st0 /\ (with_fd = true -> match rest with [] => False | st1 :: _ => answers st1 end)
+  end.
+Theorem auth_not_blocked uid with_fd scr :
+  uid < 2 ^ 32 -> responsive with_fd scr -> fst (connect_to_bus uid with_fd scr) <> CBlocked.
+Proof.
+  intros Hu Hr. pose proof (auth_terminates uid with_fd scr Hu) as H.
+  destruct (connect_to_bus uid with_fd scr) as [res s]. cbn [fst]. destruct H as (_ & _ & _ & Hb).
+  intros ->. specialize (Hb eq_refl). unfold responsive in Hr. unfold stalls, silent in Hb.
+  destruct (replies scr) as [|st0 rest]; [exact Hr|]. destruct Hr as [Ha0 Ha1].
+  destruct Hb as [[Hc Hn]|[Hfd Hb]].
+  - destruct Ha0 as [Ha0|Ha0]; [congruence|contradiction].
+  - specialize (Ha1 Hfd). cbn [tl] in Hb. destruct rest as [|st1 rest']; [exact Ha1|].
+    destruct Hb as [Hc Hn]. destruct Ha1 as [Ha1|Ha1]; [congruence|contradiction].
+Qed.
+
+(* C: no byte of the script is invented or lost by the model of the socket: what was read, what is still
+   queued and what the peer has not sent yet make up the script, in order; the handshake reads whole
+   pieces only, and (reply ReplyAccept / stops_early) stops with the read that completes the line *)
+Definition step_bytes (st : step) : list N := concat (chunks st).
+Theorem auth_bytes uid with_fd scr :
+  uid < 2 ^ 32 ->
+  match connect_to_bus uid with_fd scr with
+  | (res, s) => received (log s) ++ unread s ++ concat (map step_bytes (future s))
+                = step_bytes (greeting scr) ++ concat (map step_bytes (replies scr))
+  end.
+Proof.
+  intros Hu. destruct (get_uid_as_hex_spec uid Hu) as (ds & Eh & Hd).
+  unfold connect_to_bus.
+  pose proof (connect_on_conforms (fuel_for scr) uid (hex_of_digits ds) with_fd (sock_init scr) Eh) as H.
+  rewrite avail_init in H. specialize (H ltac:(unfold fuel_for; lia)).
+  destruct (connect_on (fuel_for scr) uid with_fd (sock_init scr)) as [res s].
+  destruct H as (evs & [El Hp] & _ & _). cbn [sock_init log app rq future] in El, Hp. rewrite El.
+  assert (Hfp : forall fu, concat (fpieces fu) = concat (map step_bytes fu)).
+  { induction fu as [|st fu IH]; [reflexivity|]. unfold fpieces in *. cbn [flat_map map concat].
+    rewrite concat_app, IH. unfold step_pieces, step_bytes. now rewrite concat_flat_map_pieces. }
+  unfold received, unread. rewrite <- Hfp, <- !concat_app, Hp, concat_app, Hfp.
+  unfold step_pieces, step_bytes. now rewrite concat_flat_map_pieces.
+Qed.
+
+(* what a pipelining server loses: the bytes after the first CR LF of a reply that arrive in the same
+   read are dropped with read_message's local buffer; they are fewer than that one read returned (< 512) *)
+Theorem accepted_reply_drops word evs :
+  reply word evs AOk ->
+  exists ps line dropped, evs = map R ps /\ first_line (concat ps) line dropped /\ stops_early ps dropped.
+Proof. intros H. inversion H; subst. exists ps, line, dropped. auto. Qed.
+Lemma pieces_small c : (length c <= TMPBUF)%nat -> (length (pieces c) <= 1)%nat.
+Proof.
+  unfold pieces. intros H. destruct c as [|x c]; [cbn; lia|]. cbn [length cut].
+  rewrite skipn_all2 by exact H. cbn [length]. destruct (length c); cbn; lia.
+Qed.
